@@ -155,6 +155,30 @@ impl ModelCase {
     }
 
     /// exact source feasibility of a full assignment; `None` if some expression is undefined
+    /// A constraint without variables whose two sides differ by less than 1e-9 relative (or are
+    /// equal): rooc decides it after folding both sides in rounded f64 (`2 / 3 >= 1 + 1 / -3` is
+    /// true exactly and false in f64), so the exact oracle has no say about such a model.
+    pub fn has_constant_row_decided_by_rounding(&self) -> bool {
+        self.cons.iter().any(|c| {
+            if c.bare {
+                return false;
+            }
+            let mut vars = vec![];
+            c.lhs.vars(&mut vars);
+            c.rhs.vars(&mut vars);
+            if !vars.is_empty() {
+                return false;
+            }
+            let env = Env::new();
+            let (Some(l), Some(r)) = (c.lhs.eval(&env), c.rhs.eval(&env)) else { return false };
+            let mut consts = vec![];
+            c.lhs.consts(&mut consts);
+            c.rhs.consts(&mut consts);
+            let inexact_data = consts.iter().any(|v| (v * 1024.0).fract() != 0.0) || c.lhs.has_division() || c.rhs.has_division();
+            inexact_data && (&l - &r).abs() <= big(1e-9) * (l.abs() + r.abs() + big(1.0))
+        })
+    }
+
     pub fn src_feasible(&self, env: &Env) -> Option<bool> {
         for (name, dom) in &self.vars {
             let v = env.get(name)?;
